@@ -572,6 +572,11 @@ func (d *driver) check(prop, tier string) int {
 					ok = true
 				}
 			}
+			if rr.HistHash != "" {
+				// record the history the replay produces: a later replay must produce the same one
+				rf.HistorySHA256 = rr.HistHash
+				d.writeReplay(prop, rf)
+			}
 		}
 		if wo.summary == nil {
 			if b, _ := crashBlame(wo.stderr); b {
@@ -710,7 +715,11 @@ func (d *driver) replay(path string) int {
 				fmt.Println("  |", h)
 			}
 		}
-		fmt.Printf("history_sha256=%s\n", rr.HistHash)
+		fmt.Printf("history_sha256=%s", rr.HistHash)
+		if rf.HistorySHA256 != "" {
+			fmt.Printf(" (recorded %s: identical=%v)", rf.HistorySHA256, rf.HistorySHA256 == rr.HistHash)
+		}
+		fmt.Println()
 		for _, v := range rr.Violations {
 			fmt.Printf("  %s\n", v)
 			if v.Property == rf.Property && v.Kind == rf.Violation.Kind {
